@@ -306,7 +306,7 @@ def run(R):
         if "size" in w and "resolution" in w:
             corpus.append((w["size"], w["resolution"], w.get("target", 64), w.get("max_scales")))
     # -------- generated cases
-    n_main = 7000 if quick else 250000
+    n_main = 7000 if quick else 200000
     cases = corpus + [gen_case(rng) for _ in range(n_main)]
     # extreme delays through exact powers of two (drives the integer core directly)
     for _ in range(600 if quick else 20000):
